@@ -423,6 +423,11 @@ def plan(ctx):
             cases.append({"kind": "prefix", "prefix": [a, b], "depth": depth, "sample": (a, b) == ("upd_all", "commit")})
     ctx.bounds.update({"state_manager": {"alphabet": OPS, "depth": depth, "sequences_upper_bound": len(OPS) ** depth}})
     ctx.explore("statemanager-sequences", cases, chunksize=2)
+    # scale: histories of hundreds of committed batches (around every power of two a block / cache size could be), then every accessor, more commits, the accessors again
+    tail = ["get_hist_u_flat", "get_hist_logl_flat", "results", "logw", "get_hist_u", "get_last_u", "to_dict", "upd_all", "commit", "get_hist_logl_flat", "get_hist_u_flat", "logw", "upd_all", "commit", "get_hist_logl_flat", "results"]
+    longs = [{"kind": "prefix", "prefix": ["upd_all", "commit"] * T + tail, "depth": 2 * T + len(tail), "exact": True} for T in ((31, 32, 63, 64, 65, 127, 128, 129, 255, 256, 257) + ((511, 512, 513, 1024) if th else ()))]
+    ctx.bounds["long_histories"] = [len(c["prefix"]) for c in longs]
+    ctx.explore("long-histories", longs)
     sc = [{"kind": "sampler", "base": ctx.seed, "depth": 1}]
     for f in S_OPS:
         sc.append({"kind": "sampler", "base": ctx.seed, "depth": 2, "first": f})
